@@ -209,19 +209,33 @@ def r18_2(ctx, R, memo):
         # capacities of fresh groups
         for bb, t, fn in b.calls():
             if fn and not b.is_cleanup(bb) and re.search(r"FuturesUnorderedBounded::<.*>::new$", fn_name(fn) or ""):
-                c = fl.operand_expr(t["args"][0])
-                if c[0] == "proj" and c[2] == (".0",):
-                    c = c[1]
-                ok = False
-                if c[0] == "const":
-                    ok = int(c[2]) >= 1
-                    det = "minimum capacity constant %s" % c[2]
-                elif c[0] == "binop" and c[1].startswith("Mul"):
-                    a, k = c[2], c[3]
-                    ok = a[0] == "call" and (a[1] or "").endswith("::capacity") and k[0] == "const" and int(k[2]) >= 2
-                    det = "%s" % expr_str(c)
-                else:
-                    det = expr_str(c)
+                c0 = fl.operand_expr(t["args"][0])
+                cands = [c0]
+                if c0[0] == "multi":
+                    # the capacity reaches the constructor through a join (`last().map_or(MIN, |t| t.capacity() * 2)`): what it is
+                    # on each feasible path
+                    from lib_flow import path_exprs
+                    try:
+                        cands = path_exprs(b, fl, bb, t["args"][0]) or [c0]
+                    except RuntimeError:
+                        cands = [c0]
+                ok = True
+                dets = []
+                for c in cands:
+                    if c[0] == "proj" and c[2] == (".0",):
+                        c = c[1]
+                    okc = False
+                    if c[0] == "const":
+                        okc = int(c[2]) >= 1
+                        dets.append("minimum capacity constant %s" % c[2])
+                    elif c[0] == "binop" and c[1].startswith("Mul"):
+                        a, k = c[2], c[3]
+                        okc = a[0] == "call" and (a[1] or "").endswith("::capacity") and k[0] == "const" and int(k[2]) >= 2
+                        dets.append("%s" % expr_str(c))
+                    else:
+                        dets.append(expr_str(c))
+                    ok = ok and okc
+                det = " | ".join(dets)
                 ctx.ob("R18.2", b, "fresh-group-capacity-doubles@%s" % _site_label(b, bb), ok, b.loc(bb), det)
     ctx.floor("R18.2", "unbounded-push-fns", n, 2)
     for b in group_loop_fns(ctx):
